@@ -34,6 +34,8 @@ func runC11(w *World, r *Report) {
 	c11Alias(w, r)
 	c11NameInPath(w, r)
 	c11AliasesFirst(w, r)
+	r.Rule("C11/NO-ALIASING", "dependency lists of a chart are never filtered in place (x[:0] then append) while the chart still uses them", 1)
+	checkInPlaceFilters(w, r, "C11/NO-ALIASING", []string{"pkg/chart/v2/util", "pkg/chart/v2", "pkg/engine"})
 }
 
 func c11GlobalDirection(w *World, r *Report) {
